@@ -40,11 +40,14 @@ package emitter
 //@   ensures [C16:nomark] len(markersOf(result)) == 0
 //@ end
 
+//@ pred CmdPieces(cs *ast.CommandStatement) = (len(cs.Args) > 0
+//@       ? pcs(sprintf("\t%s", cs.Name.Value), sprintf(" %s", joinStr(cs.Args, ", ")), "\n")
+//@       : pcs(sprintf("\t%s", cs.Name.Value), "\n"))
+
 //@ func renderCommandStatement
 //@   requires commandStmt != nil && commandStmt.Name != nil
-//@   ensures [C10:line] piecesOf(result) == (len(commandStmt.Args) > 0
-//@       ? pcs(sprintf("\t%s", commandStmt.Name.Value), sprintf(" %s", joinStr(commandStmt.Args, ", ")), "\n")
-//@       : pcs(sprintf("\t%s", commandStmt.Name.Value), "\n"))
+//@   ensures [C10:line] piecesOf(result) == CmdPieces(commandStmt)
+//@   ensures [C04:cmd-noref] RefOf(result) == -2
 //@   ensures [C16:nomark] len(markersOf(result)) == 0
 //@ end
 
@@ -68,4 +71,150 @@ package emitter
 //@     invariant forall k int :: 0 <= k && k < $i ==> sb.pieces[1+k] == sprintf("\t%s\n", movementStmt.MovementCommands[k].Literal)
 //@     invariant forall k int :: 0 <= k && k < $i ==> movementStmt.MovementCommands[k].Literal != "step_end"
 //@     invariant $i <= len(movementStmt.MovementCommands)
+//@ end
+
+//@ pred MartPieces(P seq[string], ms *ast.MartStatement) =
+//@   exists m int :: 0 <= m && m <= len(ms.Items)
+//@     && (forall k int :: 0 <= k && k < m ==> ms.Items[k] != "ITEM_NONE")
+//@     && (m < len(ms.Items) ==> ms.Items[m] == "ITEM_NONE")
+//@     && len(P) == m + 3
+//@     && P[0] == "\t.align 2\n"
+//@     && P[1] == (ms.Scope == token.GLOBAL ? sprintf("%s::\n", ms.Name.Value) : sprintf("%s:\n", ms.Name.Value))
+//@     && (forall k int :: 0 <= k && k < m ==> P[2+k] == sprintf("\t.2byte %s\n", ms.Items[k]))
+//@     && P[m+2] == sprintf("\t.2byte %s\n", "ITEM_NONE")
+
+//@ func (e *Emitter) emitMartStatement
+//@   requires martStmt != nil && martStmt.Name != nil && len(martStmt.TokenItems) == len(martStmt.Items)
+//@   ensures [C14,C15:mart] MartPieces(piecesOf(result), martStmt)
+//@   loop 1
+//@     invariant len(sb.pieces) == 2 + $i && $i <= len(martStmt.Items)
+//@     invariant sb.pieces[0] == "\t.align 2\n"
+//@     invariant sb.pieces[1] == (martStmt.Scope == token.GLOBAL ? sprintf("%s::\n", martStmt.Name.Value) : sprintf("%s:\n", martStmt.Name.Value))
+//@     invariant forall k int :: 0 <= k && k < $i ==> sb.pieces[2+k] == sprintf("\t.2byte %s\n", martStmt.Items[k])
+//@     invariant forall k int :: 0 <= k && k < $i ==> martStmt.Items[k] != "ITEM_NONE"
+//@ end
+
+// ---- text (C09, C15, C16) ----
+
+//@ pred TextPieces(P seq[string], t ast.Text) =
+//@      len(P) == 1 + len(splitStr(t.Value, "\n"))
+//@   && P[0] == (t.IsGlobal ? sprintf("%s::\n", t.Name) : sprintf("%s:\n", t.Name))
+//@   && (forall k int :: 0 <= k && k < len(splitStr(t.Value, "\n")) ==>
+//@         P[1+k] == sprintf("\t.%s \"%s\"\n", (len(t.StringType) > 0 ? t.StringType : "string"), splitStr(t.Value, "\n")[k]))
+
+//@ func (e *Emitter) emitText
+//@   ensures [C09,C15:lines] TextPieces(piecesOf(result), text)
+//@   ensures [C16:text-marker] len(markersOf(result)) == ((e.enableLineMarkers && len(e.inputFilepath) > 0) ? 1 : 0)
+//@   ensures [C16:text-line] (e.enableLineMarkers && len(e.inputFilepath) > 0) ==> markersOf(result)[0] == marker(text.Token.LineNumber, e.inputFilepath, 1)
+//@   loop 1
+//@     invariant len(sb.pieces) == 1 + $i && $i <= len(lines) && lines == splitStr(text.Value, "\n")
+//@     invariant sb.pieces[0] == (text.IsGlobal ? sprintf("%s::\n", text.Name) : sprintf("%s:\n", text.Name))
+//@     invariant forall k int :: 0 <= k && k < $i ==> sb.pieces[1+k] == sprintf("\t.%s \"%s\"\n", (len(text.StringType) > 0 ? text.StringType : "string"), lines[k])
+//@     invariant sb.markers == ((e.enableLineMarkers && len(e.inputFilepath) > 0) ? snoc(nopieces(), marker(text.Token.LineNumber, e.inputFilepath, 1)) : nopieces())
+//@ end
+
+// ---- raw (C16) ----
+
+//@ func (e *Emitter) emitRawStatement
+//@   requires rawStmt != nil
+//@   ensures [C16:raw-off] !(e.enableLineMarkers && len(e.inputFilepath) > 0) ==> (piecesOf(result) == pcs(sprintf("%s\n", rawStmt.Value)) && len(markersOf(result)) == 0)
+//@   ensures [C16:raw-on] (e.enableLineMarkers && len(e.inputFilepath) > 0) ==> (
+//@        len(piecesOf(result)) == len(splitStr(rawStmt.Value, "\n")) && len(markersOf(result)) == len(splitStr(rawStmt.Value, "\n"))
+//@     && (forall k int :: 0 <= k && k < len(splitStr(rawStmt.Value, "\n")) ==> (
+//@            piecesOf(result)[k] == sprintf("%s\n", splitStr(rawStmt.Value, "\n")[k])
+//@         && markersOf(result)[k] == marker(rawStmt.Token.LineNumber + k, e.inputFilepath, k))))
+//@   loop 1
+//@     invariant lines == splitStr(rawStmt.Value, "\n") && $i <= len(lines) && len(sb.pieces) == $i && len(sb.markers) == $i
+//@     invariant forall k int :: 0 <= k && k < $i ==> (sb.pieces[k] == sprintf("%s\n", lines[k]) && sb.markers[k] == marker(rawStmt.Token.LineNumber + k, e.inputFilepath, k))
+//@ end
+
+// ---- branch behaviours (C01, C02, C04, C05) ----
+
+//@ func RegFn
+//@   nobody
+//@   modifies RegMap(self)
+//@   ensures [C04:reg] forall k int :: {indom(RegMap(self), k)} RegMap(self)[k] == (old(RegMap(self)[k]) || k == arg0)
+//@ end
+
+//@ func (brancher) getTailChunkID
+//@   nobody
+//@   requires IsBrancher(self)
+//@   ensures [C05:tail] result == TailOf(self)
+//@ end
+//@ func (j *jump) getTailChunkID
+//@   implements (brancher) getTailChunkID
+//@ end
+//@ func (bc *breakContext) getTailChunkID
+//@   implements (brancher) getTailChunkID
+//@ end
+//@ func (l *leafExpressionBranch) getTailChunkID
+//@   implements (brancher) getTailChunkID
+//@ end
+//@ func (s *switchBranch) getTailChunkID
+//@   implements (brancher) getTailChunkID
+//@ end
+
+//@ func (brancher) renderBranchConditions
+//@   nobody
+//@   fnparam registerJumpChunk implements RegFn
+//@   requires sb != nil && BrWF(self)
+//@   modifies sb.pieces, sb.nbytes, sb.markers, RegMap(registerJumpChunk)
+//@   ensures [C01,C05:ft-tail] result ==> TailOf(self) == nextChunkID
+//@   ensures [C05:no-goto-next] (TailOf(self) == nextChunkID && nextChunkID != -1) ==> result
+//@   ensures [C04:no-runoff] (nextChunkID == -1 && !SwitchNoDefaultRet(self)) ==> !result
+//@   ensures [C04:transfer] !result ==> (len(sb.pieces) > len(old(sb.pieces)) && IsTransfer(sb.pieces[len(sb.pieces) - 1]))
+//@   ensures [C04:ref-reg] forall k int :: {sb.pieces[k]} (len(old(sb.pieces)) <= k && k < len(sb.pieces) && RefOf(sb.pieces[k]) != -2) ==> RegMap(registerJumpChunk)[RefOf(sb.pieces[k])]
+//@   ensures [C04:reg-mono] forall k int :: {RegMap(registerJumpChunk)[k]} old(RegMap(registerJumpChunk)[k]) ==> RegMap(registerJumpChunk)[k]
+//@   ensures [C04:prefix] len(sb.pieces) >= len(old(sb.pieces)) && (forall k int :: {sb.pieces[k]} (0 <= k && k < len(old(sb.pieces))) ==> sb.pieces[k] == old(sb.pieces)[k])
+//@ end
+
+//@ func (j *jump) renderBranchConditions
+//@   implements (brancher) renderBranchConditions
+//@   ensures [C01,C05:jump] result == (j.destChunkID == nextChunkID)
+//@   ensures [C01:jump-text] !result ==> sb.pieces == snoc(old(sb.pieces), sprintf("\tgoto %s_%d\n", scriptName, j.destChunkID))
+//@   ensures [C05:jump-silent] result ==> sb.pieces == old(sb.pieces)
+//@ end
+
+//@ func (bc *breakContext) renderBranchConditions
+//@   implements (brancher) renderBranchConditions
+//@   ensures [C01,C05:break] result == (bc.destChunkID != -1 && bc.destChunkID == nextChunkID)
+//@   ensures [C01:break-text] !result ==> sb.pieces == snoc(old(sb.pieces), bc.destChunkID == -1 ? "\treturn\n" : sprintf("\tgoto %s_%d\n", scriptName, bc.destChunkID))
+//@   ensures [C05:break-silent] result ==> sb.pieces == old(sb.pieces)
+//@ end
+
+//@ func renderBranchComparison
+//@   requires sb != nil && dest != nil && dest.operatorExpression != nil
+//@   modifies sb.pieces, sb.nbytes, sb.markers
+//@   ensures [C01,C02:leaf-asm] sb.pieces == CmpOut(old(sb.pieces), dest.operatorExpression, scriptName, dest.id)
+//@   ensures [C16:leaf-marker] sb.markers == ((enableLineMarkers && len(inputFilepath) > 0)
+//@       ? snoc(old(sb.markers), marker(dest.operatorExpression.Operand.LineNumber, inputFilepath, len(old(sb.pieces))))
+//@       : old(sb.markers))
+//@ end
+
+//@ func (l *leafExpressionBranch) renderBranchConditions
+//@   implements (brancher) renderBranchConditions
+//@   ensures [C01,C05:leaf] result == (l.falseyReturnID != -1 && l.falseyReturnID == nextChunkID)
+//@   ensures [C01,C02,C11:leaf-text] exists n int :: n == len(old(sb.pieces)) + (l.preambleStatement != nil ? 1 : 0)
+//@        && (l.preambleStatement != nil ==> (len(sb.pieces) > len(old(sb.pieces)) && piecesOf(sb.pieces[len(old(sb.pieces))]) == CmdPieces(l.preambleStatement)))
+//@        && (forall k int :: {sb.pieces[k]} (n <= k && k < len(CmpOut(old(sb.pieces), l.truthyDest.operatorExpression, scriptName, l.truthyDest.id)) + (n - len(old(sb.pieces))))
+//@              ==> sb.pieces[k] == CmpOut(old(sb.pieces), l.truthyDest.operatorExpression, scriptName, l.truthyDest.id)[k - (n - len(old(sb.pieces)))])
+//@ end
+
+//@ pred CaseLine(c *switchCaseBranch, scriptName string) = sprintf("\tcase %s, %s_%d\n", c.comparisonValue.Literal, scriptName, c.destChunkID)
+
+//@ func (s *switchBranch) renderBranchConditions
+//@   implements (brancher) renderBranchConditions
+//@   ensures [C03,C05:switch-ft] result == (s.defaultCase != nil ? s.defaultCase.destChunkID == nextChunkID : s.destChunkID == nextChunkID)
+//@   ensures [C03:asm] len(sb.pieces) == len(old(sb.pieces)) + 1 + len(s.cases) + (result ? 0 : 1)
+//@        && sb.pieces[len(old(sb.pieces))] == sprintf("\tswitch %s\n", s.operand.Literal)
+//@        && (forall j int :: {sb.pieces[j]} (len(old(sb.pieces)) + 1 <= j && j < len(old(sb.pieces)) + 1 + len(s.cases)) ==> sb.pieces[j] == CaseLine(s.cases[j - len(old(sb.pieces)) - 1], scriptName))
+//@   ensures [C03:asm-tail] !result ==> sb.pieces[len(sb.pieces) - 1] == (s.defaultCase != nil ? sprintf("\tgoto %s_%d\n", scriptName, s.defaultCase.destChunkID)
+//@            : (s.destChunkID == -1 ? "\treturn\n" : sprintf("\tgoto %s_%d\n", scriptName, s.destChunkID)))
+//@   loop 1
+//@     invariant [C03:asm-inv] len(sb.pieces) == len(old(sb.pieces)) + 1 + $i && $i <= len(s.cases)
+//@     invariant [C03:asm-inv] sb.pieces[len(old(sb.pieces))] == sprintf("\tswitch %s\n", s.operand.Literal)
+//@     invariant [C03:asm-inv] forall j int :: {sb.pieces[j]} (len(old(sb.pieces)) + 1 <= j && j < len(old(sb.pieces)) + 1 + $i) ==> sb.pieces[j] == CaseLine(s.cases[j - len(old(sb.pieces)) - 1], scriptName)
+//@     invariant [C04:prefix-inv] forall k int :: {sb.pieces[k]} (0 <= k && k < len(old(sb.pieces))) ==> sb.pieces[k] == old(sb.pieces)[k]
+//@     invariant [C04:reg-inv] forall x int :: {RegMap(registerJumpChunk)[x]} old(RegMap(registerJumpChunk)[x]) ==> RegMap(registerJumpChunk)[x]
+//@     invariant [C04:reg-inv] forall k int :: {s.cases[k]} (0 <= k && k < $i) ==> RegMap(registerJumpChunk)[s.cases[k].destChunkID]
 //@ end
